@@ -51,7 +51,7 @@ RULE = ("seeded coordinate sets: n=1..9 integer (x,y) coordinates drawn clustere
         "depth 0..3 of repeated up-sampling in both representations; plus for_limits_and_scale sets of both classes. A "
         "case = one generated set with all its levels; distinct = hash of (kind, coordinates, side, offsets, flipped | "
         "limits, scale); non-trivial = at least two triangles (single triangles are run but counted trivial)")
-BOUNDS = {"quick": "480 coordinate sets x depth 0..3 x 2 representations + 96 for_limits_and_scale sets (depth 0..2); per level "
+BOUNDS = {"quick": "480 coordinate sets x depth 0..3 x 2 representations + 96 for_limits_and_scale sets (depth 0..2) + 60 vertex-array sets given directly (integer / float typed); per level "
                    "3 reference points x 4 shape kinds",
           "thorough": "8000 coordinate sets x depth 0..3 x 2 representations + 1280 for_limits_and_scale sets (depth 0..2); per "
                       "level 6 (coordinate sets) / 3 reference points x 4 shape kinds"}
